@@ -14,7 +14,7 @@ LEVEL_TEXT = ('Threads.tla models every const entry point as an access program o
               'that each concurrent call returns bit-for-bit what it returns alone.')
 DESIGN_REF = 'DESIGN.md section 4, C14'
 LEVEL_NOTE = ('Trusted: TLC, ThreadSanitizer\'s happens-before analysis of the executed pairs (a conflicting pair is reported whatever the actual timing), '
-              'the access-program table in Threads.tla (read from the code). GravityModel/MagneticModel are not driven (no data files); Intersect counters, '
+              'the access-program table in Threads.tla (read from the code). GravityModel/MagneticModel and their circles are driven on synthetic model files; Intersect counters, '
               'NearestNeighbor statistics and root-table growth are excluded by the property.')
 TECHNIQUE = 'TLA+ interleaving model (TLC) + execution of every model configuration under ThreadSanitizer + TLC trace validation'
 
@@ -77,7 +77,7 @@ def run(ctx):
     return ctx.finish(RULE, TRUSTED)
 
 
-RULE = ('TLC enumerates configurations <<program A, program B, cold/warm>> over 39 access programs (quick: every program with itself and with three '
+RULE = ('TLC enumerates configurations <<program A, program B, cold/warm>> over 52 access programs (quick: every program with itself and with three '
         'others; thorough: all unordered pairs) and all interleavings of 3 threads for each; every configuration is executed on the real library '
         'built with -fsanitize=thread (3 threads, barrier start, 3 iterations). distinct_nontrivial = configurations executed.')
 TRUSTED = ['TLC', 'ThreadSanitizer', 'Threads.tla access-program table']
